@@ -85,6 +85,12 @@ class _Rename(ast.NodeTransformer):
             return ast.copy_location(ast.Name(id=self.mapping[node.id], ctx=node.ctx), node)
         return node
 
+    def visit_ExceptHandler(self, node: ast.ExceptHandler):
+        self.generic_visit(node)
+        if node.name in self.mapping:
+            node.name = self.mapping[node.name]
+        return node
+
 
 class _SubstExpr(ast.NodeTransformer):
     def __init__(self, mapping: Dict[str, ast.AST]) -> None:
@@ -418,6 +424,25 @@ def _method_qualifies(m: ast.FunctionDef) -> bool:
     return True
 
 
+def _is_simple_contextmanager(m: ast.FunctionDef) -> bool:
+    """A method decorated with contextlib.contextmanager whose body yields exactly once, as a statement of its own, and
+    has no return / nested definitions: `with m(...): BODY` then runs the method's body with BODY in place of the yield."""
+    if len(m.decorator_list) != 1 or ast.unparse(m.decorator_list[0]) not in ('contextlib.contextmanager', 'contextmanager'):
+        return False
+    if m.args.vararg or m.args.kwarg or m.args.posonlyargs or not m.args.args:
+        return False
+    ys = [n for n in ast.walk(m) if isinstance(n, (ast.Yield, ast.YieldFrom))]
+    if len(ys) != 1 or not isinstance(ys[0], ast.Yield) or ys[0].value is not None:
+        return False
+    stmt_yields = [n for n in ast.walk(m) if isinstance(n, ast.Expr) and n.value is ys[0]]
+    if len(stmt_yields) != 1:
+        return False
+    for n in ast.walk(m):
+        if n is not m and isinstance(n, (ast.Return, ast.Await, ast.Nonlocal, ast.Global, ast.FunctionDef, ast.AsyncFunctionDef, ast.ClassDef, ast.Lambda)):
+            return False
+    return True
+
+
 def _const_truth(t: ast.AST) -> Optional[bool]:
     if isinstance(t, ast.Constant):
         return bool(t.value)
@@ -461,9 +486,71 @@ def _inline_methods_in_class(c: ast.ClassDef, extra: Optional[Dict[str, ast.Func
             helpers[k] = m
     for k in keep:
         helpers.pop(k, None)
-    if not helpers:
+    # generator-based context managers: `with self._cm(...): BODY` is the manager's body with BODY at its `yield`
+    cms = {}
+    for m in list(c.body) + list((extra or {}).values()):
+        if isinstance(m, ast.FunctionDef) and m.name not in cms and _is_simple_contextmanager(m) and m.name not in keep:
+            cms[m.name] = m
+    if not helpers and not cms:
         return 0
     count = 0
+
+    def cm_of(e):
+        if not isinstance(e, ast.Call) or not isinstance(e.func, ast.Attribute) or e.func.attr not in cms:
+            return None, None
+        recv = e.func.value
+        if isinstance(recv, ast.Name) and recv.id == 'self':
+            return cms[e.func.attr], e
+        if isinstance(recv, ast.Name) and e.args and isinstance(e.args[0], ast.Name) and e.args[0].id == 'self':
+            # Class._cm(self, ...): the same call spelled through the class
+            e2 = ast.Call(func=ast.Attribute(value=ast.Name(id='self', ctx=ast.Load()), attr=e.func.attr, ctx=ast.Load()), args=e.args[1:], keywords=e.keywords)
+            return cms[e.func.attr], ast.copy_location(e2, e)
+        return None, None
+
+    def expand_with(h: ast.FunctionDef, call: ast.Call, w: ast.With):
+        fake = ast.FunctionDef(name=h.name, args=ast.arguments(posonlyargs=[], args=h.args.args[1:], vararg=None, kwonlyargs=h.args.kwonlyargs,
+                                                               kw_defaults=h.args.kw_defaults, kwarg=None, defaults=h.args.defaults), body=h.body, decorator_list=[])
+        bound = _bind_args(fake, call)
+        if bound is None:
+            return None
+        stored = _stored_names(h)
+        ren = {nm: f'{h.name}__{nm}' for nm in (stored | set(bound))}
+        subst, pre = {}, []
+        for p_, a in bound.items():
+            chain = a
+            while isinstance(chain, ast.Attribute):
+                chain = chain.value
+            if p_ not in stored and (isinstance(a, (ast.Name, ast.Constant)) or (isinstance(a, ast.Attribute) and isinstance(chain, ast.Name))):
+                subst[p_] = a
+            else:
+                asg = ast.Assign(targets=[ast.Name(id=ren[p_], ctx=ast.Store())], value=a)
+                pre.append(ast.fix_missing_locations(ast.copy_location(asg, w)))
+        body = []
+        for hs in h.body:
+            if isinstance(hs, ast.Expr) and isinstance(hs.value, ast.Constant) and isinstance(hs.value.value, str):
+                continue
+            x = _Rename({k: v for k, v in ren.items() if k not in subst}).visit(copy.deepcopy(hs))
+            if subst:
+                x = _SubstExpr(subst).visit(x)
+            body.append(ast.fix_missing_locations(x))
+
+        def place(stmts):
+            out_ = []
+            for st in stmts:
+                if isinstance(st, ast.Expr) and isinstance(st.value, ast.Yield):
+                    out_ += w.body
+                    continue
+                for fld in ('body', 'orelse', 'finalbody'):
+                    blk = getattr(st, fld, None)
+                    if isinstance(blk, list) and blk and isinstance(blk[0], ast.stmt):
+                        setattr(st, fld, place(blk))
+                if isinstance(st, ast.Try):
+                    for hd in st.handlers:
+                        hd.body = place(hd.body)
+                out_.append(st)
+            return out_
+
+        return pre + _fold_constant_ifs(place(body))
 
     def call_of(e):
         if isinstance(e, ast.Call) and isinstance(e.func, ast.Attribute) and isinstance(e.func.value, ast.Name) and e.func.value.id == 'self' and e.func.attr in helpers:
@@ -560,6 +647,15 @@ def _inline_methods_in_class(c: ast.ClassDef, extra: Optional[Dict[str, ast.Func
                     out.append(ast.fix_missing_locations(ast.copy_location(new, s)))
                     count += 1
                     continue
+            if isinstance(s, ast.With) and len(s.items) == 1 and s.items[0].optional_vars is None:
+                hcm, call2 = cm_of(s.items[0].context_expr)
+                if hcm is not None and hcm is not host:
+                    s.body = rewrite(s.body, host)
+                    r = expand_with(hcm, call2, s)
+                    if r is not None:
+                        out += r
+                        count += 1
+                        continue
             if not isinstance(s, (ast.FunctionDef, ast.AsyncFunctionDef, ast.ClassDef)):
                 for fld in ('body', 'orelse', 'finalbody'):
                     blk = getattr(s, fld, None)
